@@ -123,6 +123,7 @@ func init() {
 	})
 	Impl("c06.string.unmarshal", func(a []Val) Val {
 		var s types.SMB_STRING
+		dirty(&s)
 		n, err := s.Unmarshal(exact(a[0].B))
 		if err != nil {
 			return VErr()
@@ -139,6 +140,7 @@ func init() {
 	})
 	Impl("c06.oem.unmarshal", func(a []Val) Val {
 		var o types.OEM_STRING
+		dirty(&o)
 		n, err := o.Unmarshal(exact(a[0].B))
 		if err != nil {
 			return VErr()
@@ -152,6 +154,7 @@ func init() {
 	})
 	Impl("c06.date.unmarshal", func(a []Val) Val {
 		var d types.SMB_DATE
+		dirty(&d)
 		n, err := d.Unmarshal(exact(a[0].B))
 		if err != nil {
 			return VErr()
@@ -165,6 +168,7 @@ func init() {
 	})
 	Impl("c06.filetime.unmarshal", func(a []Val) Val {
 		var f data_structures.FILETIME
+		dirty(&f)
 		n, err := f.Unmarshal(exact(a[0].B))
 		if err != nil {
 			return VErr()
@@ -178,6 +182,7 @@ func init() {
 	})
 	Impl("c06.range32.unmarshal", func(a []Val) Val {
 		var l types.LOCKING_ANDX_RANGE32
+		dirty(&l)
 		n, err := l.Unmarshal(exact(a[0].B))
 		if err != nil {
 			return VErr()
@@ -192,6 +197,7 @@ func init() {
 	})
 	Impl("c06.range64.unmarshal", func(a []Val) Val {
 		var l types.LOCKING_ANDX_RANGE64
+		dirty(&l)
 		n, err := l.Unmarshal(exact(a[0].B))
 		if err != nil {
 			return VErr()
@@ -206,6 +212,7 @@ func init() {
 	})
 	Impl("c06.nmpipe.unmarshal", func(a []Val) Val {
 		var s types.SMB_NMPIPE_STATUS
+		dirty(&s)
 		n, err := s.Unmarshal(exact(a[0].B))
 		if err != nil {
 			return VErr()
@@ -224,6 +231,7 @@ func init() {
 	Impl("c06.resumekey.unmarshal", func(a []Val) (out Val) {
 		c06Quiet(func() {
 			var r types.SMB_RESUME_KEY
+			dirty(&r)
 			n, err := r.Unmarshal(exact(a[0].B))
 			if err != nil {
 				out = VErr()
@@ -245,6 +253,7 @@ func init() {
 	Impl("c06.dirinfo.unmarshal", func(a []Val) (out Val) {
 		c06Quiet(func() {
 			var d types.SMB_DIRECTORY_INFORMATION
+			dirty(&d)
 			n, err := d.Unmarshal(exact(a[0].B))
 			if err != nil {
 				out = VErr()
@@ -261,6 +270,7 @@ func init() {
 	})
 	Impl("c06.fileattr.unmarshal", func(a []Val) Val {
 		var s types.SMB_FILE_ATTRIBUTES
+		dirty(&s)
 		n, err := s.Unmarshal(exact(a[0].B))
 		if err != nil {
 			return VErr()
@@ -274,6 +284,7 @@ func init() {
 	})
 	Impl("c06.andx.unmarshal", func(a []Val) Val {
 		var x andx.AndX
+		dirty(&x)
 		n, err := x.Unmarshal(exact(a[0].B))
 		if err != nil {
 			return VErr()
@@ -294,6 +305,7 @@ func init() {
 	})
 	Impl("c06.version.unmarshal", func(a []Val) Val {
 		var v version.Version
+		dirty(&v)
 		n, err := v.Unmarshal(exact(a[0].B))
 		if err != nil {
 			return VErr()
@@ -418,6 +430,7 @@ func c06Oracles() {
 		s := types.SMB_STRING{BufferFormat: format, Length: uint16(len(buf)), Buffer: exact(buf)}
 		return c06RT(c06StringKey(format, len(buf)), a[2].B, s.Marshal, func(b []byte) (int, error, string) {
 			var u types.SMB_STRING
+			dirty(&u)
 			n, err := u.Unmarshal(b)
 			if err != nil {
 				return n, err, ""
@@ -449,6 +462,7 @@ func c06Oracles() {
 		d := types.SMB_DATE{Year: uint16(a[0].Uint()), Month: uint8(a[1].Uint()), Day: uint8(a[2].Uint())}
 		return c06RT("C06/date", a[3].B, d.Marshal, func(b []byte) (int, error, string) {
 			var u types.SMB_DATE
+			dirty(&u)
 			n, err := u.Unmarshal(b)
 			if err == nil && u != d {
 				return n, nil, fmt.Sprintf("%+v (wanted %+v)", u, d)
@@ -461,6 +475,7 @@ func c06Oracles() {
 		w := uint16(a[0].Uint())
 		in := []byte{byte(w), byte(w >> 8)}
 		var u types.SMB_DATE
+		dirty(&u)
 		n, err := u.Unmarshal(exact(in))
 		if err != nil || n != 2 {
 			return "C06/date/word", fmt.Sprintf("word %04x: n=%d err=%v", w, n, err)
@@ -479,6 +494,7 @@ func c06Oracles() {
 		f := data_structures.FILETIME{DwLowDateTime: uint32(a[0].Uint()), DwHighDateTime: uint32(a[1].Uint())}
 		return c06RT("C06/filetime", a[2].B, f.Marshal, func(b []byte) (int, error, string) {
 			var u data_structures.FILETIME
+			dirty(&u)
 			n, err := u.Unmarshal(b)
 			if err == nil && u != f {
 				return n, nil, fmt.Sprintf("%+v (wanted %+v)", u, f)
@@ -491,6 +507,7 @@ func c06Oracles() {
 		l := types.LOCKING_ANDX_RANGE32{PID: uint16(a[0].Uint()), ByteOffset: uint32(a[1].Uint()), LengthInBytes: uint32(a[2].Uint())}
 		return c06RT("C06/range32", a[3].B, l.Marshal, func(b []byte) (int, error, string) {
 			var u types.LOCKING_ANDX_RANGE32
+			dirty(&u)
 			n, err := u.Unmarshal(b)
 			if err == nil && u != l {
 				return n, nil, fmt.Sprintf("%+v (wanted %+v)", u, l)
@@ -504,6 +521,7 @@ func c06Oracles() {
 			ByteOffsetLow: uint32(a[3].Uint()), LengthInBytesHigh: uint32(a[4].Uint()), LengthInBytesLow: uint32(a[5].Uint())}
 		return c06RT("C06/range64", a[6].B, l.Marshal, func(b []byte) (int, error, string) {
 			var u types.LOCKING_ANDX_RANGE64
+			dirty(&u)
 			n, err := u.Unmarshal(b)
 			if err == nil && u != l {
 				return n, nil, fmt.Sprintf("%+v (wanted %+v)", u, l)
@@ -516,6 +534,7 @@ func c06Oracles() {
 		s := types.SMB_NMPIPE_STATUS{ICount: uint8(a[0].Uint()), Flags: uint8(a[1].Uint())}
 		return c06RT("C06/nmpipe-status", a[2].B, s.Marshal, func(b []byte) (int, error, string) {
 			var u types.SMB_NMPIPE_STATUS
+			dirty(&u)
 			n, err := u.Unmarshal(b)
 			if err == nil && u != s {
 				return n, nil, fmt.Sprintf("%+v (wanted %+v)", u, s)
@@ -580,6 +599,7 @@ func c06Oracles() {
 		s := types.SMB_FILE_ATTRIBUTES{Attributes: uint16(a[0].Uint())}
 		return c06RT("C06/file-attributes", a[1].B, s.Marshal, func(b []byte) (int, error, string) {
 			var u types.SMB_FILE_ATTRIBUTES
+			dirty(&u)
 			n, err := u.Unmarshal(b)
 			if err == nil && u != s {
 				return n, nil, fmt.Sprintf("%#04x (wanted %#04x)", u.Attributes, s.Attributes)
@@ -592,6 +612,7 @@ func c06Oracles() {
 		x := andx.AndX{AndXCommand: codes.CommandCode(a[0].Uint()), AndXReserved: uint8(a[1].Uint()), AndXOffset: uint16(a[2].Uint())}
 		return c06RT("C06/andx", a[3].B, x.Marshal, func(b []byte) (int, error, string) {
 			var u andx.AndX
+			dirty(&u)
 			n, err := u.Unmarshal(b)
 			if err == nil && u != x {
 				return n, nil, fmt.Sprintf("%+v (wanted %+v)", u, x)
@@ -606,6 +627,7 @@ func c06Oracles() {
 		copy(v.Reserved[:], a[3].B)
 		return c06RT("C06/version", a[5].B, v.Marshal, func(b []byte) (int, error, string) {
 			var u version.Version
+			dirty(&u)
 			n, err := u.Unmarshal(b)
 			if err == nil && u != v {
 				return n, nil, fmt.Sprintf("%+v (wanted %+v)", u, v)
